@@ -244,9 +244,23 @@ func genBadDep(t *rapid.T) BadDep {
 	case "unterminated-substvar":
 		tail = rapid.SampledFrom([]string{"${" + "misc:Depends", "${", "${foo", name + " | ${shlibs:Depends"}).Draw(t, "v")
 	case "mixed-negation":
-		tail = rapid.SampledFrom([]string{
-			name + " [!" + a1 + " " + a2 + "]", name + " [" + a1 + " !" + a2 + "]", name + " [!" + a1 + " !" + a2 + " " + a1 + "]", name + " [" + a1 + " " + a2 + " !" + a1 + "]",
-		}).Draw(t, "v")
+		// 2..6 entries, all negated but one or none negated but one, at any position
+		n := rapid.IntRange(2, 6).Draw(t, "mn")
+		odd := rapid.IntRange(0, n-1).Draw(t, "modd")
+		base := rapid.Bool().Draw(t, "mbase")
+		items := []string{}
+		for i := 0; i < n; i++ {
+			neg := base
+			if i == odd {
+				neg = !base
+			}
+			it := genArchName(t, "ma")
+			if neg {
+				it = "!" + it
+			}
+			items = append(items, it)
+		}
+		tail = name + " [" + strings.Join(items, " ") + "]"
 		suffixOK = true
 	case "second-version":
 		tail = rapid.SampledFrom([]string{
